@@ -16,7 +16,10 @@ where
     let w = edge_tree.last().unwrap();
     path.push(w.clone());
     let mut i = 0;
-    for edge in edge_tree.iter().rev() {
+    // Walk back from the edge before the last one: the last edge is already
+    // in the path and must not be matched against itself (it would be
+    // duplicated when it is a self-loop).
+    for edge in edge_tree.iter().rev().skip(1) {
         let Edge(_, v, _) = edge;
         let Edge(s, _, _) = &path[i];
         if s == v {
